@@ -53,6 +53,7 @@ func runOne(t *testing.T, c Case, tape *kernel.Tape) (res RunResult) {
 	res.Engine = c.Engine
 	defer func() {
 		verifhook.OnLock, verifhook.OnUnlock, verifhook.OnRange = nil, nil, nil
+		verifhook.OnRLock, verifhook.OnRUnlock = nil, nil
 		if r := recover(); r != nil {
 			res.Crash = fmt.Sprint(r)
 			if os.Getenv("VERIF_DEBUG") != "" {
@@ -71,6 +72,8 @@ func runOne(t *testing.T, c Case, tape *kernel.Tape) (res RunResult) {
 		verifhook.OnLock = func(l verifhook.Locker, site string) { s.Lock(l, site) }
 		verifhook.OnUnlock = func(l verifhook.Locker, site string) { s.Unlock(l, site) }
 		verifhook.OnRange = s.RangeOrder
+		verifhook.OnRLock = func(l verifhook.RLocker, site string) { s.RLock(l, site) }
+		verifhook.OnRUnlock = func(l verifhook.RLocker, site string) { s.RUnlock(l, site) }
 		defer func() {
 			if r := recover(); r != nil {
 				buf := make([]byte, 8192)
